@@ -216,6 +216,8 @@ class Actor:
         self.tracing = False
         self.last_site = "start"
         self.preempted_inside = 0
+        self.thread_ident = None
+        self.vfile = None
         self.ntok = 0
         self.tokhash = 0
 
@@ -272,6 +274,82 @@ class World:
         self.probes = {}
         self.switch_sites = {}
         self.fired = {}
+
+    # -- I/O seam for parse_file --------------------------------------------
+    def install_io_seam(self):
+        if getattr(self, "_io_installed", False):
+            return
+        self._io_installed = True
+        world = self
+        pkg = self.pyc.pycparser
+        by_thread = {}
+
+        def cur_actor():
+            t = threading.get_ident()
+            a = by_thread.get(t)
+            if a is None:
+                for x in world.actors:
+                    if x.thread_ident == t:
+                        a = by_thread[t] = x
+                        break
+            return a
+
+        class _FakeFile:
+            def __init__(self, text, fault):
+                self.text = text
+                self.fault = fault or {}
+
+            def __enter__(self):
+                return self
+
+            def __exit__(self, *exc):
+                return False
+
+            def read(self):
+                k = self.fault.get("kind")
+                if k == "decode-error":
+                    world.fired["io:decode-error"] = world.fired.get("io:decode-error", 0) + 1
+                    raise UnicodeDecodeError("utf-8", b"\xff", 0, 1, "invalid start byte (injected)")
+                if k == "short-read":
+                    world.fired["io:short-read"] = world.fired.get("io:short-read", 0) + 1
+                    return self.text[: int(self.fault.get("at", 0))]
+                return self.text
+
+        class _FakeIO:
+            @staticmethod
+            def open(filename, *args, **kw):
+                a = cur_actor()
+                v = a.vfile if a is not None else None
+                if v is None:
+                    raise FileNotFoundError(2, "No such file (sim)", filename)
+                f = v.get("fault") or {}
+                if f.get("kind") == "open-error":
+                    world.fired["io:open-error"] = world.fired.get("io:open-error", 0) + 1
+                    raise PermissionError(13, "Permission denied (injected)", filename)
+                return _FakeFile(v["text"], f)
+
+        def fake_check_output(path_list, **kw):
+            a = cur_actor()
+            v = a.vfile if a is not None else None
+            f = (v or {}).get("fault") or {}
+            if f.get("kind") == "cpp-missing":
+                world.fired["io:cpp-missing"] = world.fired.get("io:cpp-missing", 0) + 1
+                raise FileNotFoundError(2, "No such file or directory (injected)", path_list[0])
+            if f.get("kind") == "cpp-fails":
+                import subprocess
+
+                world.fired["io:cpp-fails"] = world.fired.get("io:cpp-fails", 0) + 1
+                raise subprocess.CalledProcessError(1, path_list)
+            text = v["text"] if v else ""
+            fn = v["filename"] if v else "x.c"
+            if f.get("kind") == "short-read":
+                world.fired["io:short-read"] = world.fired.get("io:short-read", 0) + 1
+                text = text[: int(f.get("at", 0))]
+            # what a preprocessor does to the outside observer: line markers
+            return '# 1 "%s"\n# 1 "<built-in>"\n# 1 "%s"\n%s' % (fn, fn, text)
+
+        pkg.io = _FakeIO
+        pkg.check_output = fake_check_output
 
     # -- probes -------------------------------------------------------------
     def probe(self, name, n=1):
@@ -605,6 +683,65 @@ class OpRunner:
                     res["fresh_shared_nodes"] = len(sh)
                 a.node_ids |= fform.ids
 
+    # -- parse_file: the package-level convenience API, reused parser, I/O seam ----
+    def op_parse_file(self, op, res):
+        """pycparser.parse_file(filename, use_cpp, ..., parser=<long-lived parser>)
+        with the file system and the cpp subprocess behind a seam (fake `io` /
+        `check_output` in the package namespace, installed once per world and
+        dispatching on the calling actor thread).  I/O faults: open error,
+        decode error, short read, cpp missing, cpp failing."""
+        a = self.a
+        sim = op.get("obj", "P1") != "P0"
+        parser = self.obj(op.get("obj", "P1"), lambda: self.new_parser(sim))
+        a.objs["_cur_parser"] = parser
+        self.w.install_io_seam()
+        text = op_text(op)
+        filename = op.get("filename", "")
+        a.vfile = {"text": text, "fault": op.get("io_fault"), "filename": filename}
+        pkg = self.pyc.pycparser
+
+        def run():
+            return pkg.parse_file(
+                filename,
+                use_cpp=bool(op.get("use_cpp")),
+                cpp_path=op.get("cpp_path", "cpp"),
+                cpp_args=op.get("cpp_args", ""),
+                parser=parser,
+            )
+
+        try:
+            ast = self.call(run)
+        except Exception as e:
+            res["out"] = _outcome_exc(e)
+            ast = None
+        if ast is not None:
+            form = canon.ast_form(ast, self.pyc.Node)
+            res["out"] = _outcome_ok("ok", form.text, {"nodes": form.n_nodes})
+            a.keep.append(ast)
+            self._share_check(form, res)
+            self._leak_info(form, res)
+        a.vfile = None
+        a.objs.pop("_cur_parser", None)
+        if self.w.check_fresh:
+            a.vfile = {"text": text, "fault": op.get("io_fault"), "filename": filename}
+            try:
+                fast = pkg.parse_file(
+                    filename,
+                    use_cpp=bool(op.get("use_cpp")),
+                    cpp_path=op.get("cpp_path", "cpp"),
+                    cpp_args=op.get("cpp_args", ""),
+                )
+                fform = canon.ast_form(fast, self.pyc.Node)
+                res["fresh"] = _outcome_ok("ok", fform.text)
+                a.keep.append(fast)
+                sh = fform.ids & a.node_ids
+                if sh:
+                    res["fresh_shared_nodes"] = len(sh)
+                a.node_ids |= fform.ids
+            except Exception as e:
+                res["fresh"] = _outcome_exc(e)
+            a.vfile = None
+
     # -- generate -----------------------------------------------------------------
     def _select(self, ast, select):
         if not select or select[0] == "root":
@@ -628,8 +765,9 @@ class OpRunner:
         node = self._select(ast, op.get("select"))
         res["node"] = type(node).__name__
         red = bool(op.get("reduce"))
-        key = op.get("obj", "G1" if red else "G0")
-        gen = self.obj(key, lambda: self.pyc.c_generator.CGenerator(reduce_parentheses=red))
+        gcls = get_generator_class(self.pyc, op.get("gencls"))
+        key = op.get("obj", ("G1" if red else "G0") + ":" + str(op.get("gencls")))
+        gen = self.obj(key, lambda: gcls(reduce_parentheses=red))
         try:
             s = self.call(gen.visit, node)
             if not isinstance(s, str):
@@ -642,7 +780,7 @@ class OpRunner:
             res["gen_dropped"] = True
         if self.w.check_fresh:
             try:
-                s2 = self.pyc.c_generator.CGenerator(reduce_parentheses=red).visit(node)
+                s2 = gcls(reduce_parentheses=red).visit(node)
                 res["fresh"] = _outcome_ok("ok", s2 if isinstance(s2, str) else repr(s2))
             except Exception as e:
                 res["fresh"] = _outcome_exc(e)
@@ -797,6 +935,43 @@ class OpRunner:
             res["out"]["msg"] = out.get("full")
 
 
+def get_generator_class(pyc, name):
+    """CGenerator or a user-style subclass (hierarchy) defined against the tree
+    under test; subclasses override a few visit_* methods."""
+    if not name or name == "plain":
+        return pyc.c_generator.CGenerator
+    cls = pyc.visitor_classes.get("gen:" + name)
+    if cls is not None:
+        return cls
+    Base = pyc.c_generator.CGenerator
+    if name == "Upper":
+
+        class UpperGen(Base):
+            def visit_ID(self, n):
+                return n.name.upper()
+
+            def visit_Constant(self, n):
+                return "<" + n.value + ">"
+
+        cls = UpperGen
+    else:
+        Mid = get_generator_class(pyc, "Upper")
+
+        class UpperMoreGen(Mid):
+            def visit_ID(self, n):
+                return "_" + n.name + "_"
+
+            def visit_Return(self, n):
+                return "RETURN " + (self.visit(n.expr) if n.expr else "") + ";"
+
+            def visit_Break(self, n):
+                return "BREAK;"
+
+        cls = UpperMoreGen
+    pyc.visitor_classes["gen:" + name] = cls
+    return cls
+
+
 def get_visitor_class(pyc, name):
     """NodeVisitor subclasses defined against the tree under test.  Two
     instances of the same class with different tags must not see each other."""
@@ -889,6 +1064,7 @@ def get_visitor_class(pyc, name):
 # Running a spec
 # --------------------------------------------------------------------------
 def _actor_main(world, actor):
+    actor.thread_ident = threading.get_ident()
     actor.sem.acquire()
     try:
         runner = OpRunner(world, actor)
